@@ -407,7 +407,7 @@ def jobs(chk, tier):
     rnd = C.rng('c08')
     frac = 0.08 if tier == 'quick' else 0.3
     for r, g in records(chk, tier, CIRC_INVS):
-        yield (r, g, C.seed(), rnd.random() < frac)
+        yield (r, g, C.seed(), C.pick([r['input'], g], frac, 'c08-solve'))
 
 
 def run(tier):
